@@ -5,6 +5,7 @@ import (
 	"sort"
 	"strings"
 
+	connect "github.com/bufbuild/connect-go"
 	"google.golang.org/protobuf/proto"
 	"verif.local/harness/ev"
 	"verif.local/harness/gen"
@@ -142,10 +143,17 @@ func splitAt(n int, points ...int) []int {
 	return append(out, n-prev)
 }
 
+func boolInt(b bool) int {
+	if b {
+		return 1
+	}
+	return 0
+}
+
 func c03(run *ev.Run) int {
-	run.SetRule("bodies = valid request and response bodies recorded from connect-go peers (3 protocols x 2 codecs x 4 kinds x gzip on/off x {0,1,2,3 messages} x {success, error}); segmentations = all 2^(n-1) compositions for bodies up to the bound (quick 12, thorough 14 bytes), else 1-byte reads, every split inside each 5-byte prefix, payload boundary +-1, halving, seeded random; each with EOF on the last data read and EOF on a separate read; oracle: outcome (messages, error code+text, metadata) == outcome of one-piece delivery, which must equal what the application supplied; distinct by (body, segmentation class)")
-	bound := run.Pick(12, 14)
-	nrandom := run.Pick(25, 200)
+	run.SetRule("bodies = valid request and response bodies recorded from connect-go peers (3 protocols x 2 codecs x 4 kinds x gzip on/off x {0,1,2,3 messages} x {success, error}); segmentations = all 2^(n-1) compositions for bodies up to the bound (quick 12, thorough 16 bytes), else 1-byte reads, every split inside each 5-byte prefix, payload boundary +-1, halving, seeded random; each with EOF on the last data read and EOF on a separate read, alternately with and without a read limit configured on the receiver; oracle: outcome (messages, error code+text, metadata) == outcome of one-piece delivery, which must equal what the application supplied; distinct by (body, segmentation class)")
+	bound := run.Pick(12, 16)
+	nrandom := run.Pick(25, 400)
 	small := buildCorpus(corpusSpec{protos: svc.Protocols, codecs: []string{"proto"}, kinds: svc.Kinds, gzips: []bool{false},
 		counts: []int{0, 1, 2}, scenarios: []string{"ok", "err-early"}, small: true})
 	big := buildCorpus(corpusSpec{protos: svc.Protocols, codecs: svc.Codecs, kinds: svc.Kinds, gzips: []bool{false, true},
@@ -178,7 +186,13 @@ func c03(run *ev.Run) int {
 		}
 		for si, seg := range segs {
 			for _, eofWith := range []bool{false, true} {
-				got, _ := rec.replayResponse(&wire.ScriptedBody{Data: rec.Ex.Result.Body, Chunks: seg, EOFWithData: eofWith}, true)
+				var extra []connect.ClientOption
+				if (si+boolInt(eofWith))%2 == 1 {
+					// every other replay: the receiver has a (generous) read limit,
+					// which selects different read paths in the library
+					extra = append(extra, connect.WithReadMaxBytes(1<<20))
+				}
+				got, _ := rec.replayResponse(&wire.ScriptedBody{Data: rec.Ex.Result.Body, Chunks: seg, EOFWithData: eofWith}, true, extra...)
 				run.Eval(fmt.Sprintf("%s|resp|%s", rec.Name, segClass(seg, len(rec.Ex.Result.Body))))
 				run.Count("replays.response", 1)
 				if s := clientOutcome(got, true); s != baseStr {
@@ -201,9 +215,13 @@ func c03(run *ev.Run) int {
 		if exh {
 			run.Count("bodies.exhaustive", 1)
 		}
-		for _, seg := range segs {
+		for si, seg := range segs {
 			for _, eofWith := range []bool{false, true} {
-				hl, res := rec.replayRequest(&wire.ScriptedBody{Data: rec.Ex.ReqBody, Chunks: seg, EOFWithData: eofWith}, drainProgram())
+				var hextra []connect.HandlerOption
+				if (si+boolInt(eofWith))%2 == 1 {
+					hextra = append(hextra, connect.WithReadMaxBytes(1<<20))
+				}
+				hl, res := rec.replayRequest(&wire.ScriptedBody{Data: rec.Ex.ReqBody, Chunks: seg, EOFWithData: eofWith}, drainProgram(), hextra...)
 				run.Eval(fmt.Sprintf("%s|req|%s", rec.Name, segClass(seg, len(rec.Ex.ReqBody))))
 				run.Count("replays.request", 1)
 				if s := handlerOutcome(hl, res, true); s != base2 {
